@@ -183,11 +183,15 @@ func (d *director) compareFinal() {
 		return
 	}
 	d.run.Count("final_states_equal", 1)
-	if d.spec.Kind == "final" && len(d.eps) == 1 && d.eps[0].lastT1 != nil {
+	if d.spec.Kind == "final" && len(d.eps) == 1 && d.eps[0].outcome == "justified-block-refused" {
+		d.run.Count("final_altered_commits_refused_by_the_verifier", 1)
+		d.run.Count("final_altered_commits_decided", 1)
+	} else if d.spec.Kind == "final" && len(d.eps) == 1 && d.eps[0].lastT1 != nil {
 		// did the altered commit reach the store (as the seen commit of the height the node switched at)?
 		if m, ok := decBC(d.eps[0].lastT1).(*xBlockResponse); ok && m.Block != nil && m.Block.LastCommit != nil {
 			if sc := bs.LoadSeenCommit(d.eps[0].spec.T); sc != nil && bytes.Equal(wire.BinaryBytes(sc), wire.BinaryBytes(m.Block.LastCommit)) {
 				d.run.Count("final_altered_commits_that_reached_the_store", 1)
+				d.run.Count("final_altered_commits_decided", 1)
 			}
 		}
 	}
